@@ -876,6 +876,82 @@ def rule_jn_joiners(cx, rep, port):
             rep.decide(oc == want, key, g, good, bad + ' (0 / 1 / 2 matches -> {})'.format([sorted(oc[n_]) for n_ in (0, 1, 2)]))
 
 
+def _jn_key_dispatch(cx, rep, port, p, mod, ms):
+    """which key function the constructor selects, end to end: the constructor is run on abstract key-index lists, then whatever it stored
+    as `polymorphic_get_key` is applied to a B record of three fields; the key must list, in the order of the ON clause, the record
+    number for index -1 and the field for any other index (runtime error when the record is too short)"""
+    from .. import absexec as AX
+    init = ms.get('__init__') or ms.get('init')
+    if init is None:
+        return
+    cases = [([-1], 'NR'), ([0], 'F0'), ([2], 'F2'), ([3], 'ERR'), ([0, 1], ['F0', 'F1']), ([1, 0], ['F1', 'F0']), ([2, 1], ['F2', 'F1']), ([0, 2], ['F0', 'F2']), ([-1, 1], ['NR', 'F1']),
+             ([1, -1], ['F1', 'NR']), ([0, 1, 2], ['F0', 'F1', 'F2']), ([2, 0, 1], ['F2', 'F0', 'F1']), ([1, 3], 'ERR'), ([3, 2], 'ERR')]
+    bad, und = [], []
+    for idx, want in cases:
+        selfv = AX.Abs('Self')
+        toks = {k: AX.Abs(k) for k in ('NR', 'F0', 'F1', 'F2')}
+        fields = [toks['F0'], toks['F1'], toks['F2']]
+
+        def on_call(ex, node, fname, recv, args):
+            short = node.func.attr if isinstance(node.func, ast.Attribute) else fname.split('.')[-1]
+            if short.endswith('Error'):
+                return AX.Abs(short)
+            if fname == 'JSON.stringify' and len(args) == 1 and isinstance(args[0], (list, tuple)):
+                return AX.Abs('Json', items=tuple(args[0]))
+            if recv is None and short in ('defaultdict', 'Map', 'dict', 'OrderedDict'):
+                return {}
+            if fname in ('operator.itemgetter', 'itemgetter'):
+                raise Undecided('itemgetter is outside the model', node)
+            return AX.NOT_HANDLED
+        ex = AX.Explorer(p, mod, on_call=on_call, max_choices=1)
+        ex.cls = 'HashJoinMap'
+        ex._script, ex._pos, ex.steps, ex.depth = [], 0, 0, 0
+        ex.run = AX.Run()
+        try:
+            ex.call_fd(init, [selfv, AX.Abs('Iterator'), list(idx)])
+            sel = ex.run.state.get((selfv.uid, 'polymorphic_get_key'))
+            if not (isinstance(sel, tuple) and len(sel) == 3 and sel[0] == 'method' and sel[1] is selfv and sel[2] in ms):
+                und.append('what the constructor stores as polymorphic_get_key was not recognised')
+                continue
+            ex.run.state[(selfv.uid, 'nr')] = toks['NR']
+            kf = ms[sel[2]]
+            args = []
+            for prm in [a.arg for a in kf.args.args]:
+                args.append(selfv if prm in ('self', 'this') else (toks['NR'] if prm == 'nr' else list(fields)))
+            try:
+                val = ex.call_fd(kf, args)
+                kind = 'return'
+            except AX.Raised as r:
+                kind, val = 'raise', r.value
+        except (Undecided, AX.Cut, AX._NeedChoice) as e_:
+            und.append(str(e_))
+            continue
+        except AX.Raised as r:
+            bad.append('the constructor raises {} for key indices {}'.format(getattr(r.value, 'kind', r.value), idx))
+            continue
+        show = lambda v: getattr(v, 'kind', repr(v))  # noqa: E731
+        if want == 'ERR':
+            if not (kind == 'raise' and isinstance(val, AX.Abs) and val.kind == 'RbqlRuntimeError'):
+                bad.append('key indices {} on a B record of 3 fields: {} instead of the runtime error'.format(idx, 'raises ' + show(val) if kind == 'raise' else 'the key is ' + show(val)))
+            continue
+        if kind == 'raise':
+            bad.append('key indices {} on a B record of 3 fields raise {}'.format(idx, show(val)))
+            continue
+        if isinstance(want, list):
+            items = list(val) if isinstance(val, (list, tuple)) else (list(val.props['items']) if isinstance(val, AX.Abs) and val.kind == 'Json' else None)
+            if items is None:
+                und.append('composite key value {!r} not recognised'.format(val))
+                continue
+            if not (len(items) == len(want) and all(a is toks[w] for a, w in zip(items, want))):
+                bad.append('key indices {} give the B key ({}) instead of ({}): the A side lists its key values in the order of the ON clause, so equal keys no longer meet'.format(idx, ', '.join(show(x) for x in items), ', '.join(want)))
+        elif val is not toks[want]:
+            bad.append('key index {} gives the B key {} instead of {}'.format(idx[0], show(val), want))
+    if und and not bad:
+        rep.undecided('key dispatch', init, und[0])
+    else:
+        rep.decide(not bad, 'key dispatch', init, 'the key function chosen by the constructor yields, for every tried list of key indices, the record number / fields in ON-clause order ({} index lists)'.format(len(cases)), '; '.join(bad[:2]))
+
+
 def _jn_key_functions(cx, rep, port, p, mod, ms):
     from .. import absexec as AX
     for mname in ('get_single_key', 'get_multi_key'):
@@ -1007,6 +1083,7 @@ def rule_jn_build(cx, rep, port):
     # key functions: index -1 -> record number ; missing field -> runtime error.  Decided on the abstract outcomes of the two key
     # functions for a B record of two fields F0, F1 and the index classes {-1, inside, outside}
     _jn_key_functions(cx, rep, port, p, mod, ms)
+    _jn_key_dispatch(cx, rep, port, p, mod, ms)
     # key representation agrees with the lhs expression built by the parser
     init = ms['__init__']
     sel = [n for n in walk_no_nested(init) if isinstance(n, ast.If) and 'len(key_indices) == 1' in node_text(n.test)]
